@@ -32,6 +32,10 @@ inductive Res (α : Type) where
   | unsupported      -- input outside the modelled (ASCII) domain
 deriving Repr, DecidableEq
 
+def Res.ofOption {α : Type} : Option α → Res α
+  | some v => .ok v
+  | none => .err
+
 def isDigit (c : UInt8) : Bool := 48 ≤ c.toNat && c.toNat ≤ 57
 def digitVal (c : UInt8) : Nat := c.toNat - 48
 def digitChar (d : Nat) : UInt8 := UInt8.ofNat (48 + d)
@@ -250,27 +254,27 @@ def parseBytesSigned (text : Bytes) : Option Int :=
     else if v > 2 ^ 63 - 1 then none else some (v : Int)
 
 def liftU (ascii : Bool) (r : Option Nat) : Res Nat :=
-  if !ascii then .unsupported else match r with | some v => .ok v | none => .err
+  if !ascii then .unsupported else Res.ofOption r
 def liftS (ascii : Bool) (r : Option Int) : Res Int :=
-  if !ascii then .unsupported else match r with | some v => .ok v | none => .err
+  if !ascii then .unsupported else Res.ofOption r
 
 /-- `(*SizeV1).UnmarshalText` -/
 def unmarshalV1U (text : Bytes) : Res Nat :=
   match matchSizeV1 text with
-  | some (ds, suf) => (match fastU ds suf with | some v => .ok v | none => .err)
+  | some (ds, suf) => Res.ofOption (fastU ds suf)
   | none => liftU (isAscii text) (parseBytes (rewriteBareIECSuffix text))
 
 /-- `(*SSizeV1).UnmarshalText` -/
 def unmarshalV1S (text : Bytes) : Res Int :=
   match matchSSizeV1 text with
-  | some (ds, suf) => (match fastS ds suf with | some v => .ok v | none => .err)
+  | some (ds, suf) => Res.ofOption (fastS ds suf)
   | none => liftS (isAscii text) (parseBytesSigned (rewriteBareIECSuffix text))
 
 /-- **after fixes/C34-sizev2-exact-integers.patch**: `(*SizeV2).UnmarshalText` — a plain decimal
     integer goes through `strconv.ParseUint`, everything else through humanize. -/
 def unmarshalV2U (text : Bytes) : Res Nat :=
   if !text.isEmpty && text.all isDigit then
-    (match parseUint10 text with | some v => .ok v | none => .err)
+    Res.ofOption (parseUint10 text)
   else liftU (isAscii text) (parseBytes text)
 
 /-- **after the fix**: `(*SSizeV2).UnmarshalText` — `-?[0-9]+` goes through `strconv.ParseInt`. -/
@@ -279,7 +283,7 @@ def unmarshalV2S (text : Bytes) : Res Int :=
     | c :: rest => if c == 45 then rest else text
     | [] => []
   if !body.isEmpty && body.all isDigit then
-    (match parseInt10 text with | some v => .ok v | none => .err)
+    Res.ofOption (parseInt10 text)
   else liftS (isAscii text) (parseBytesSigned text)
 
 /-- the code before the fix (kept to state what the fix changed): pure humanize -/
